@@ -273,6 +273,9 @@ func (m *ModuleInstance) applyData(data []*DataSegment) error {
 				return fmt.Errorf("%s[%d]: out of bounds memory access", SectionIDName(SectionIDData), i)
 			}
 			copy(m.Memory.Buffer[offset:], d.Init)
+			// An active segment is dropped once it has been copied (bulk memory operations:
+			// memory.init on it then behaves like on a data.drop'ed segment).
+			m.DataInstances[i] = nil
 		}
 	}
 	return nil
